@@ -152,9 +152,8 @@ structure Host where
   cur : Option Pool
   old : List Pool
   nextId : Nat
-  sessClosed : Bool    -- Session.Close has run policyConnPool.Close()
+  sessClosed : Bool    -- Session.Close has run policyConnPool.Close(): policyConnPool.closed is set
   cancelled : Bool     -- … and has reached s.cancel(): the session context is cancelled, every later dial fails at once
-  lateAdd : Bool       -- ghost: an addHost ran after policyConnPool.Close() (and before the context was cancelled)
 deriving DecidableEq, Repr
 
 inductive Act where
@@ -164,13 +163,14 @@ inductive Act where
   | pick                      -- hostConnPool.Pick on the registered pool: `go pool.fill()`
   | fillCheck                 -- a fill() of the registered pool passes its read-locked check (several may)
   | fillGo                    -- a fill() that passed the first check takes the write lock and checks again
-  | up                        -- policyConnPool.addHost: new pool if none is registered; pool.fill()
+  | up                        -- policyConnPool.addHost: new pool if none is registered; pool.fill() — nothing at all
+                              -- once policyConnPool.Close() has run (fix: commit for KF-C17-3)
   | down                      -- policyConnPool.removeHost / SetHosts: unregister, `go pool.Close()`
   | pclose                    -- hostConnPool.Close() of the registered pool (it stays registered)
   | sclose                    -- Session.Close, first half: policyConnPool.Close()
   | scancel                   -- Session.Close, second half (after control connection and debouncers were stopped):
                               -- s.cancel() — the attempts in flight are then failed by the cancelled session context
-                              -- (`fail` actions); between the two halves addHost still works
+                              -- (`fail` actions); between the two halves the session context is still alive
 deriving DecidableEq, Repr
 
 /-- apply f to the first pool on which it is defined -/
@@ -187,7 +187,7 @@ def firstOk (f : Pool → Option (Pool × Nat)) : List Pool → Option (List Poo
 def Host.init (c : Cfg) : Host :=
   { cfg := c,
     cur := some { conns := [1], filling := true, closed := false, att := mkAtts 2 (c.size - 1), rest := 0, opened := 1, pend := 0 },
-    old := [], nextId := 2 + (c.size - 1), sessClosed := false, cancelled := false, lateAdd := false }
+    old := [], nextId := 2 + (c.size - 1), sessClosed := false, cancelled := false }
 
 def Host.routeOld (h : Host) (f : Pool → Option (Pool × Nat)) : Option Host :=
   match firstOk f h.old with
@@ -219,14 +219,12 @@ def Host.step (h : Host) : Act → Option Host
       | none => some h
   | .fillGo => h.route (fun p => Pool.fillGo h.cfg.size p h.nextId)
   | .up =>
-      -- policyConnPool.addHost does not know that the session is closing: after policyConnPool.Close() it registers a
-      -- NEW pool and fills it (the dials succeed until the session context is cancelled)
-      if h.cancelled then none
-      else
-        let h0 := { h with lateAdd := h.lateAdd || h.sessClosed }
-        match h0.cur with
-        | some _ => some h0.fillCur
-        | none => some ({ h0 with cur := some Pool.new }).fillCur
+      -- policyConnPool.addHost: `if p.closed { unlock; return }` under the pool map's mutex — after
+      -- policyConnPool.Close() no pool is registered and nothing is filled
+      if h.sessClosed then some h
+      else match h.cur with
+        | some _ => some h.fillCur
+        | none => some ({ h with cur := some Pool.new }).fillCur
   | .down => match h.cur with
       | some p => some { h with cur := none, old := p.close :: h.old }
       | none => some h
@@ -271,6 +269,23 @@ def Pool.okEarly (c : Cfg) (p : Pool) (k : Nat) (nextId : Nat) : Option (Pool ×
       let p1 : Pool := { p with att := l, conns := p.conns ++ [k] }      -- appended without looking at `closed`
       if a.sync then some ({ p1 with att := mkAtts nextId p.rest ++ l, rest := 0 }, p.rest)
       else some (p1, 0)
+
+/-- the code before the fix commit for KF-C17-3: policyConnPool.addHost does not know that the session is closing —
+    after policyConnPool.Close() it registers a NEW pool and fills it (the dials succeed until the session context
+    is cancelled). Kept for the regression theorem `C17_old_addhost_in_close_window_leaks`. -/
+def Host.stepOld (h : Host) : Act → Option Host
+  | .up =>
+      if h.cancelled then none
+      else match h.cur with
+        | some _ => some h.fillCur
+        | none => some ({ h with cur := some Pool.new }).fillCur
+  | a => h.step a
+
+def Host.runOld : Host → List Act → Option Host
+  | h, [] => some h
+  | h, a :: as => match h.stepOld a with
+    | some h' => Host.runOld h' as
+    | none => none
 
 /-- the variant of the host machine whose fill() does not look at `filling` again under the write lock -/
 def Host.stepNoRecheck (h : Host) : Act → Option Host
